@@ -1,5 +1,429 @@
-//! Conformance harness for property C03, see /verif/DESIGN.md.
+//! Conformance harness for property C03 (arithmetic expansion), see
+//! /verif/DESIGN.md section 6 and spec/Arith.tla.
+//!
+//! Sub-commands
+//!   replay --in gen.ndjson --out obs.ndjson
+//!       evaluate every TLC-generated case (`text`, `env`) with the real
+//!       `yash_arith::eval`; one observation per input line, same order.
+//!   random --n N --depth D --out trace.ndjson
+//!       seeded random expression trees (deeper than the enumeration), real
+//!       evaluation, one record {k:"tree", tree, sp, text, env, out} per case
+//!       for validation by spec/Trace_Arith.tla.
+//!   soup --n N --out trace.ndjson
+//!       token soup, Unicode text and mutated expressions; records
+//!       {k:"soup", cp, out} (only totality is judged).
+//!   shell --in gen.ndjson --every K --out obs.ndjson
+//!       the same cases through the whole shell: `x=..; echo "$(( text ))"`.
+//!   shellsoup --n N --out trace.ndjson
+//!       soup through the whole shell (`e=<text>; echo $(($e))`).
+//!   redo --in case.json
+//!       re-evaluate one case (replay of a violation).
+mod tree;
+
+use serde_json::{Value, json};
+use std::collections::BTreeMap;
+use std::convert::Infallible;
+use std::io::{BufRead, Write};
+use std::ops::Range;
+use yvcommon::util::{catch, open_in, open_out, opt, opt_usize, quiet_panics};
+
+/// The environment given to `yash_arith::eval`: a plain map, never failing
+/// (unset variables are reported as unset, i.e. the `nounset` option is off).
+#[derive(Clone, Debug, Default, PartialEq, Eq)]
+pub struct MapEnv {
+    pub vars: BTreeMap<String, String>,
+    /// number of assignments performed
+    pub assigns: usize,
+}
+
+impl yash_arith::Env for MapEnv {
+    type GetVariableError = Infallible;
+    type AssignVariableError = Infallible;
+    fn get_variable(&self, name: &str) -> Result<Option<&str>, Infallible> {
+        Ok(self.vars.get(name).map(String::as_str))
+    }
+    fn assign_variable(&mut self, name: &str, value: String, _location: Range<usize>) -> Result<(), Infallible> {
+        self.assigns += 1;
+        self.vars.insert(name.to_owned(), value);
+        Ok(())
+    }
+}
+
+/// What the real code did with one expression.
+#[derive(Clone, Debug)]
+pub struct Obs {
+    /// "v" value, "e" evaluation error, "s" syntax error, "p" panic
+    pub t: &'static str,
+    pub v: i64,
+    /// error variant / panic message
+    pub c: String,
+    /// error location lies inside the text, on character boundaries
+    pub loc_ok: bool,
+    pub env: MapEnv,
+}
+
+pub fn evaluate(text: &str, env0: &MapEnv) -> Obs {
+    let mut env = env0.clone();
+    let r = catch(|| yash_arith::eval(text, &mut env));
+    let mut obs = Obs { t: "p", v: 0, c: String::new(), loc_ok: true, env: MapEnv::default() };
+    match r {
+        Err(msg) => {
+            obs.c = msg;
+        }
+        Ok(Ok(yash_arith::Value::Integer(i))) => {
+            obs.t = "v";
+            obs.v = i;
+        }
+        Ok(Ok(other)) => {
+            // Value is non-exhaustive; a non-integer result is outside the specification
+            obs.t = "e";
+            obs.c = format!("NonInteger:{other:?}");
+        }
+        Ok(Err(e)) => {
+            let l = &e.location;
+            obs.loc_ok = l.start <= l.end
+                && l.end <= text.len()
+                && text.is_char_boundary(l.start)
+                && text.is_char_boundary(l.end);
+            use yash_arith::ErrorCause as EC;
+            match &e.cause {
+                EC::SyntaxError(s) => {
+                    obs.t = "s";
+                    let d = format!("{s:?}");
+                    obs.c = d.split(|c: char| !c.is_alphanumeric()).next().unwrap_or("").to_string();
+                    if let yash_arith::SyntaxError::TokenError(t) = s {
+                        obs.c = format!("{t:?}");
+                    }
+                }
+                EC::EvalError(x) => {
+                    obs.t = "e";
+                    let d = format!("{x:?}");
+                    obs.c = d.split(|c: char| !c.is_alphanumeric()).next().unwrap_or("").to_string();
+                }
+                other => {
+                    obs.t = "s";
+                    obs.c = format!("{other:?}");
+                }
+            }
+        }
+    }
+    obs.env = env;
+    obs
+}
+
+// ---------------------------------------------------------------------------
+// JSON forms
+// ---------------------------------------------------------------------------
+
+/// Int64.tla number: sign + little-endian limbs in base 2^15
+pub fn num_json(v: i64) -> Value {
+    let mut m = v.unsigned_abs();
+    let mut limbs = vec![];
+    while m > 0 {
+        limbs.push(m % 32768);
+        m /= 32768;
+    }
+    json!({"n": v < 0, "m": limbs})
+}
+
+fn chars_json(s: &str) -> Value {
+    Value::Array(s.chars().map(|c| Value::String(c.to_string())).collect())
+}
+
+/// environment for the TLA+ side: every name in `names` gets a cell
+fn env_tla(env: &MapEnv, names: &[String]) -> Value {
+    let mut o = serde_json::Map::new();
+    for n in names {
+        let cell = match env.vars.get(n) {
+            Some(s) => json!({"set": true, "s": chars_json(s)}),
+            None => json!({"set": false, "s": []}),
+        };
+        o.insert(n.clone(), cell);
+    }
+    Value::Object(o)
+}
+
+/// environment in the form of the generator's lines (strings)
+fn env_plain(env: &MapEnv, names: &[String]) -> Value {
+    let mut o = serde_json::Map::new();
+    for n in names {
+        let cell = match env.vars.get(n) {
+            Some(s) => json!({"set": true, "s": s}),
+            None => json!({"set": false, "s": ""}),
+        };
+        o.insert(n.clone(), cell);
+    }
+    Value::Object(o)
+}
+
+fn env_from_plain(v: &Value) -> (MapEnv, Vec<String>) {
+    let mut env = MapEnv::default();
+    let mut names = vec![];
+    for (n, cell) in v.as_object().expect("env object") {
+        names.push(n.clone());
+        if cell["set"].as_bool().unwrap_or(false) {
+            env.vars.insert(n.clone(), cell["s"].as_str().unwrap_or("").to_string());
+        }
+    }
+    (env, names)
+}
+
+fn names_of(env0: &MapEnv, obs: &Obs, extra: &[String]) -> Vec<String> {
+    let mut names: Vec<String> = env0.vars.keys().chain(obs.env.vars.keys()).chain(extra.iter()).cloned().collect();
+    names.sort();
+    names.dedup();
+    names
+}
+
+fn obs_plain(obs: &Obs, names: &[String]) -> Value {
+    json!({"t": obs.t, "v": obs.v.to_string(), "c": obs.c, "lok": obs.loc_ok, "env": env_plain(&obs.env, names)})
+}
+
+fn obs_tla(obs: &Obs, names: &[String]) -> Value {
+    json!({"t": obs.t, "v": num_json(obs.v), "c": obs.c, "lok": obs.loc_ok, "env": env_tla(&obs.env, names)})
+}
+
+// ---------------------------------------------------------------------------
+// replay of generated cases
+// ---------------------------------------------------------------------------
+
+fn replay(args: &[String]) -> i32 {
+    let input = open_in(args);
+    let mut out = open_out(args);
+    let mut n = 0usize;
+    for line in input.lines() {
+        let line = line.expect("read");
+        if line.trim().is_empty() {
+            continue;
+        }
+        let case: Value = serde_json::from_str(&line).expect("json");
+        let text = case["text"].as_str().expect("text");
+        let (env0, names) = env_from_plain(&case["env"]);
+        let obs = evaluate(text, &env0);
+        let names = names_of(&env0, &obs, &names);
+        writeln!(out, "{}", json!({"i": n, "out": obs_plain(&obs, &names)})).unwrap();
+        n += 1;
+    }
+    out.flush().unwrap();
+    eprintln!("replayed {n} cases");
+    0
+}
+
+fn redo(args: &[String]) -> i32 {
+    let path = opt(args, "--in").expect("--in");
+    let case: Value = serde_json::from_str(&std::fs::read_to_string(path).expect("read")).expect("json");
+    let text: String = match case.get("cp") {
+        Some(Value::Array(cps)) => cps.iter().filter_map(|c| char::from_u32(c.as_u64().unwrap_or(0) as u32)).collect(),
+        _ => case["text"].as_str().expect("text").to_string(),
+    };
+    let (env0, names) = match case["env"].as_object() {
+        Some(_) => env_from_plain(&case["env"]),
+        None => (MapEnv::default(), vec![]),
+    };
+    let obs = evaluate(&text, &env0);
+    let names = names_of(&env0, &obs, &names);
+    println!("{}", json!({"text": text, "out": obs_plain(&obs, &names)}));
+    0
+}
+
+// ---------------------------------------------------------------------------
+// random trees (impl -> spec)
+// ---------------------------------------------------------------------------
+
+fn random(args: &[String]) -> i32 {
+    use rand::SeedableRng;
+    let n = opt_usize(args, "--n", 1000);
+    let depth = opt_usize(args, "--depth", 4);
+    let mut rng = rand::rngs::StdRng::seed_from_u64(yvcommon::util::seed().wrapping_mul(0x9E37_79B9).wrapping_add(3));
+    let mut out = open_out(args);
+    for _ in 0..n {
+        let d = 1 + (rand::Rng::gen_range(&mut rng, 0..depth));
+        let t = tree::random_tree(&mut rng, d);
+        let sp = if rand::Rng::gen_bool(&mut rng, 0.5) { "s" } else { "t" };
+        let text = tree::text(&t, sp);
+        let mut names = tree::names(&t);
+        let env0 = tree::random_env(&mut rng, &names);
+        let obs = evaluate(&text, &env0);
+        names = names_of(&env0, &obs, &names);
+        let rec = json!({
+            "k": "tree", "tree": tree::to_json(&t), "sp": sp, "text": text,
+            "env": env_tla(&env0, &names), "out": obs_tla(&obs, &names),
+        });
+        writeln!(out, "{rec}").unwrap();
+    }
+    out.flush().unwrap();
+    0
+}
+
+// ---------------------------------------------------------------------------
+// soup (totality)
+// ---------------------------------------------------------------------------
+
+fn soup_record(text: &str, obs: &Obs) -> Value {
+    let cps: Vec<u32> = text.chars().map(|c| c as u32).collect();
+    json!({"k": "soup", "cp": cps, "out": {"t": obs.t, "c": obs.c, "lok": obs.loc_ok}})
+}
+
+fn soup(args: &[String]) -> i32 {
+    use rand::SeedableRng;
+    let n = opt_usize(args, "--n", 1000);
+    let mut rng = rand::rngs::StdRng::seed_from_u64(yvcommon::util::seed().wrapping_mul(0x9E37_79B9).wrapping_add(7));
+    let mut out = open_out(args);
+    let env0 = tree::soup_env();
+    for i in 0..n {
+        let text = tree::random_soup(&mut rng, i);
+        let obs = evaluate(&text, &env0);
+        writeln!(out, "{}", soup_record(&text, &obs)).unwrap();
+    }
+    out.flush().unwrap();
+    0
+}
+
+// ---------------------------------------------------------------------------
+// through the whole shell
+// ---------------------------------------------------------------------------
+
+fn sh_quote(s: &str) -> String {
+    format!("'{}'", s.replace('\'', "'\\''"))
+}
+
+/// Runs `script` in the real shell on the simulated OS; classifies the result
+/// of the one arithmetic expansion it contains.
+fn shell_eval(script: &str, names: &[String]) -> Obs {
+    use yvcommon::sched::Outcome;
+    use yvcommon::shell::{ShellCfg, run_shell};
+    let mut cfg = ShellCfg::command(script);
+    cfg.step_limit = 200_000;
+    let r = run_shell(cfg);
+    let mut obs = Obs { t: "p", v: 0, c: String::new(), loc_ok: true, env: MapEnv::default() };
+    match &r.outcome {
+        Outcome::Completed => {}
+        other => {
+            obs.c = format!("{other:?}");
+            return obs;
+        }
+    }
+    let so = r.stdout_str();
+    let se = r.stderr_str();
+    if let Some(rest) = so.strip_prefix("R|") {
+        let parts: Vec<&str> = rest.trim_end_matches('\n').split('|').collect();
+        if parts.len() == names.len() + 2 {
+            if let Ok(v) = parts[0].parse::<i64>() {
+                obs.t = "v";
+                obs.v = v;
+                for (n, p) in names.iter().zip(&parts[1..]) {
+                    if *p != "<unset>" {
+                        obs.env.vars.insert(n.clone(), p.to_string());
+                    }
+                }
+                return obs;
+            }
+        }
+        obs.t = "e";
+        obs.c = format!("unparsable output {so:?}");
+        return obs;
+    }
+    // no output: the expansion failed; the diagnostic is on stderr
+    obs.t = "e";
+    obs.c = format!("status={} {}", r.status, se.lines().filter(|l| l.contains('^') || l.starts_with("error")).collect::<Vec<_>>().join(" / "));
+    if r.status == 0 || se.is_empty() {
+        obs.c = format!("no output, status={}, stderr={se:?}", r.status);
+    }
+    obs
+}
+
+fn shell_script(text: &str, env0: &MapEnv, names: &[String]) -> String {
+    let mut s = String::new();
+    for n in names {
+        match env0.vars.get(n) {
+            Some(v) => s.push_str(&format!("{n}={}; ", sh_quote(v))),
+            None => s.push_str(&format!("unset {n}; ")),
+        }
+    }
+    s.push_str(&format!("echo \"R|$(( {text} ))"));
+    for n in names {
+        s.push_str(&format!("|${{{n}-<unset>}}"));
+    }
+    s.push_str("|\"");
+    s
+}
+
+fn shell(args: &[String]) -> i32 {
+    let input = open_in(args);
+    let mut out = open_out(args);
+    let every = opt_usize(args, "--every", 1).max(1);
+    let offset = yvcommon::util::seed() as usize % every;
+    let mut n = 0usize;
+    let mut done = 0usize;
+    for line in input.lines() {
+        let line = line.expect("read");
+        if line.trim().is_empty() {
+            continue;
+        }
+        let i = n;
+        n += 1;
+        let case: Value = serde_json::from_str(&line).expect("json");
+        // family 5 (variable values, `$x` forms) is always run
+        let fam = case["id"][0].as_u64().unwrap_or(0);
+        if fam != 5 && i % every != offset {
+            continue;
+        }
+        let text = match case.get("dtext").and_then(|d| d.as_str()) {
+            Some(d) if !d.is_empty() => d,
+            _ => case["text"].as_str().expect("text"),
+        };
+        let (env0, names) = env_from_plain(&case["env"]);
+        let script = shell_script(text, &env0, &names);
+        let obs = shell_eval(&script, &names);
+        writeln!(out, "{}", json!({"i": i, "script": script, "out": obs_plain(&obs, &names)})).unwrap();
+        done += 1;
+    }
+    out.flush().unwrap();
+    eprintln!("ran {done} of {n} cases through the shell");
+    0
+}
+
+fn shellsoup(args: &[String]) -> i32 {
+    use rand::SeedableRng;
+    let n = opt_usize(args, "--n", 200);
+    let mut rng = rand::rngs::StdRng::seed_from_u64(yvcommon::util::seed().wrapping_mul(0x9E37_79B9).wrapping_add(11));
+    let mut out = open_out(args);
+    for i in 0..n {
+        let mut text = tree::random_soup(&mut rng, i);
+        text.retain(|c| c != '\0');
+        let script = format!("x=5; y=; e={}; echo \"R|$(($e))|\"", sh_quote(&text));
+        let obs = shell_eval(&script, &[]);
+        writeln!(out, "{}", soup_record(&text, &obs)).unwrap();
+    }
+    out.flush().unwrap();
+    0
+}
+
 fn main() {
-    eprintln!("yv-c03: not implemented yet");
-    std::process::exit(2);
+    let args: Vec<String> = std::env::args().collect();
+    if args.len() < 2 {
+        eprintln!("usage: yv-c03 <replay|random|soup|shell|shellsoup|redo> ...");
+        std::process::exit(2);
+    }
+    quiet_panics();
+    let rest: Vec<String> = args[2..].to_vec();
+    let sub = args[1].clone();
+    // deep recursion of the code under test on long inputs: give it room
+    let child = std::thread::Builder::new()
+        .stack_size(256 << 20)
+        .spawn(move || match sub.as_str() {
+            "replay" => replay(&rest),
+            "random" => random(&rest),
+            "soup" => soup(&rest),
+            "shell" => shell(&rest),
+            "shellsoup" => shellsoup(&rest),
+            "redo" => redo(&rest),
+            other => {
+                eprintln!("unknown subcommand {other}");
+                2
+            }
+        })
+        .expect("spawn");
+    let code = child.join().unwrap_or(2);
+    std::process::exit(code);
 }
